@@ -1,4 +1,4 @@
-_c17_common = dict(harness="C17_swaps.cpp", entries=["harness_c17"], units=CORE, unwind=26, object_bits=13, witness_any=True, timeout={"quick": 900, "thorough": 2400}, mem_gb=6)
+_c17_common = dict(harness="C17_swaps.cpp", entries=["harness_c17"], units=CORE, unwind=26, object_bits=13, witness_any=True, timeout={"quick": 900, "thorough": 2400}, mem_gb=3)
 _SWAPS = [OP_SWAP_V, OP_SWAP_E, OP_SWAP_F, OP_SWAP_C]
 PROPS["C17"] = dict(
   jobs=[
